@@ -6,7 +6,7 @@ use num_rational::BigRational;
 use num_traits::{One, ToPrimitive, Zero};
 use serde::{Deserialize, Serialize};
 use std::fmt::Debug;
-use yui::poly::{Mono, Poly};
+use yui::poly::{HPoly, Mono, Poly};
 use yui::{EisenInt, GaussInt, QuadInt, Ratio, FF, FF2};
 
 use super::refalg::*;
@@ -147,6 +147,31 @@ where R: Sc + yui::Ring, for<'a> &'a R: yui::RingOps<R> {
     fn operand_bits() -> u32 { R::operand_bits() }
 }
 
+impl<R> Sc for HPoly<'x', R>
+where R: Sc + yui::Ring, for<'a> &'a R: yui::RingOps<R> {
+    fn rk() -> RK { match R::rk() { RK::Q => RK::PQ, RK::F(p) => RK::PF(p), k => panic!("no reference polynomial ring over {:?}", k) } }
+    fn machine() -> bool { R::machine() }
+    fn from_rv(v: &RV) -> Option<Self> {
+        match v {
+            RV::PQ(c) => { let nz: Vec<usize> = (0..c.len()).filter(|i| !c[*i].is_zero()).collect();
+                match nz.len() { 0 => Some(HPoly::new(0, R::from_rv(&RK::Q.zero())?)), 1 => Some(HPoly::new(nz[0], R::from_rv(&RV::Q(c[nz[0]].clone()))?)), _ => None } }
+            RV::PF(c) => { let nz: Vec<usize> = (0..c.len()).filter(|i| c[*i] != 0).collect();
+                match nz.len() { 0 => Some(HPoly::new(0, R::from_rv(&RV::F(0))?)), 1 => Some(HPoly::new(nz[0], R::from_rv(&RV::F(c[nz[0]]))?)), _ => None } }
+            _ => None,
+        }
+    }
+    fn to_rv(&self) -> RV {
+        let c = self.coeff().to_rv();
+        match c {
+            RV::Q(q) => if q.is_zero() { RV::PQ(vec![]) } else { let mut v = vec![BigRational::zero(); self.deg() + 1]; v[self.deg()] = q; RV::PQ(v) },
+            RV::F(q) => if q == 0 { RV::PF(vec![]) } else { let mut v = vec![0u64; self.deg() + 1]; v[self.deg()] = q; RV::PF(v) },
+            _ => panic!("hpoly coefficient"),
+        }
+    }
+    fn canonical(&self) -> Result<(), String> { self.coeff().canonical() }
+    fn operand_bits() -> u32 { R::operand_bits() }
+}
+
 // ---------------------------------------------------------------------------
 // runtime type tags
 
@@ -157,7 +182,7 @@ pub enum Ty {
     F2, FF2, FF3, FF5, FF7, FF251, FF46337,
     GI64, GI128, GBig, EI64, EI128, EBig,
     Q2I64, Q2Big, Qm2Big, Q5I64, Q5Big, Qm7Big,
-    PQI64, PQBig, PF3, PF5,
+    PQI64, PQBig, PF3, PF5, HQI64, HQBig, HF3,
 }
 
 pub type Q2<I> = QuadInt<I, 2>;
@@ -171,7 +196,7 @@ impl Ty {
         Ty::GI64, Ty::GI128, Ty::GBig, Ty::EI64, Ty::EI128, Ty::EBig, Ty::Q2I64, Ty::Q2Big, Ty::Qm2Big, Ty::Q5I64, Ty::Q5Big, Ty::Qm7Big];
     pub const EUCLIDEAN: &'static [Ty] = &[
         Ty::I32, Ty::I64, Ty::I128, Ty::Big, Ty::QI64, Ty::QBig, Ty::F2, Ty::FF2, Ty::FF3, Ty::FF5, Ty::FF7, Ty::FF251,
-        Ty::GI64, Ty::GI128, Ty::GBig, Ty::EI64, Ty::EI128, Ty::EBig, Ty::PQI64, Ty::PQBig, Ty::PF3, Ty::PF5];
+        Ty::GI64, Ty::GI128, Ty::GBig, Ty::EI64, Ty::EI128, Ty::EBig, Ty::PQI64, Ty::PQBig, Ty::PF3, Ty::PF5, Ty::HQI64, Ty::HQBig, Ty::HF3];
     pub fn rk(&self) -> RK {
         match self {
             Ty::I32 | Ty::I64 | Ty::I128 | Ty::Big => RK::Z,
@@ -180,13 +205,13 @@ impl Ty {
             Ty::GI64 | Ty::GI128 | Ty::GBig => RK::Quad(-1),
             Ty::EI64 | Ty::EI128 | Ty::EBig => RK::Quad(-3),
             Ty::Q2I64 | Ty::Q2Big => RK::Quad(2), Ty::Qm2Big => RK::Quad(-2), Ty::Q5I64 | Ty::Q5Big => RK::Quad(5), Ty::Qm7Big => RK::Quad(-7),
-            Ty::PQI64 | Ty::PQBig => RK::PQ, Ty::PF3 => RK::PF(3), Ty::PF5 => RK::PF(5),
+            Ty::PQI64 | Ty::PQBig | Ty::HQI64 | Ty::HQBig => RK::PQ, Ty::PF3 | Ty::HF3 => RK::PF(3), Ty::PF5 => RK::PF(5),
         }
     }
     /// bits of the underlying machine integer (None = arbitrary precision or finite field)
     pub fn machine_bits(&self) -> Option<u32> {
         match self {
-            Ty::I32 => Some(31), Ty::I64 | Ty::QI64 | Ty::GI64 | Ty::EI64 | Ty::Q2I64 | Ty::Q5I64 | Ty::PQI64 => Some(63),
+            Ty::I32 => Some(31), Ty::I64 | Ty::QI64 | Ty::GI64 | Ty::EI64 | Ty::Q2I64 | Ty::Q5I64 | Ty::PQI64 | Ty::HQI64 => Some(63),
             Ty::I128 | Ty::QI128 | Ty::GI128 | Ty::EI128 => Some(127),
             _ => None,
         }
@@ -211,6 +236,7 @@ macro_rules! dispatch_ring {
             Ty::Q5I64 => $f::<Q5<i64>>($($a),*), Ty::Q5Big => $f::<Q5<BigInt>>($($a),*), Ty::Qm7Big => $f::<Qm7<BigInt>>($($a),*),
             Ty::PQI64 => $f::<yui::poly::Poly<'x', Ratio<i64>>>($($a),*), Ty::PQBig => $f::<yui::poly::Poly<'x', Ratio<BigInt>>>($($a),*),
             Ty::PF3 => $f::<yui::poly::Poly<'x', FF<3>>>($($a),*), Ty::PF5 => $f::<yui::poly::Poly<'x', FF<5>>>($($a),*),
+            Ty::HQI64 => $f::<yui::poly::HPoly<'x', Ratio<i64>>>($($a),*), Ty::HQBig => $f::<yui::poly::HPoly<'x', Ratio<BigInt>>>($($a),*), Ty::HF3 => $f::<yui::poly::HPoly<'x', FF<3>>>($($a),*),
         }
     }};
 }
@@ -231,6 +257,7 @@ macro_rules! dispatch_euc {
             Ty::EI64 => $f::<EisenInt<i64>>($($a),*), Ty::EI128 => $f::<EisenInt<i128>>($($a),*), Ty::EBig => $f::<EisenInt<BigInt>>($($a),*),
             Ty::PQI64 => $f::<yui::poly::Poly<'x', Ratio<i64>>>($($a),*), Ty::PQBig => $f::<yui::poly::Poly<'x', Ratio<BigInt>>>($($a),*),
             Ty::PF3 => $f::<yui::poly::Poly<'x', FF<3>>>($($a),*), Ty::PF5 => $f::<yui::poly::Poly<'x', FF<5>>>($($a),*),
+            Ty::HQI64 => $f::<yui::poly::HPoly<'x', Ratio<i64>>>($($a),*), Ty::HQBig => $f::<yui::poly::HPoly<'x', Ratio<BigInt>>>($($a),*), Ty::HF3 => $f::<yui::poly::HPoly<'x', FF<3>>>($($a),*),
             other => panic!("{:?} is not a Euclidean type", other),
         }
     }};
